@@ -389,7 +389,7 @@ func (v *Verifier) zeroValue(t types.Type) Value {
 // symbolic value of type t named by prefix
 func (v *Verifier) symValue(prefix string, t types.Type, entry bool) Value {
 	if v.isAbstract(t) {
-		return v.F.Var(prefix, v.abstractSort(t))
+		return v.abstractVar(prefix, t)
 	}
 	switch u := t.Underlying().(type) {
 	case *types.Basic:
@@ -824,7 +824,7 @@ func (v *Verifier) merge2(a, b *State) *State {
 	if len(diff) > 0 {
 		c = v.F.And(diff...)
 	}
-	n := &State{mem: map[*Object]Value{}, ghosts: map[string]*Term{}, srcVar: map[string]Value{}, srcAdr: map[string]bool{}}
+	n := &State{headPC: a.headPC, mem: map[*Object]Value{}, ghosts: map[string]*Term{}, srcVar: map[string]Value{}, srcAdr: map[string]bool{}}
 	n.pc = v.F.Or(a.pc, b.pc)
 	n.path = v.F.Or(pa, pb)
 	if len(a.cnt) > 0 || len(b.cnt) > 0 {
@@ -913,14 +913,18 @@ func (fr *Frame) oblige(st *State, kind string, goal *Term, spec string) {
 	if v.scratch {
 		return
 	}
-	if !goal.IsTrue() && !st.pc.IsFalse() {
-		goal = v.F.SimplifyUnder(st.pc, goal)
+	pc := st.pc
+	if len(v.moduleVars) > 0 && !goal.IsTrue() && !pc.IsFalse() {
+		pc, goal = v.moduleNormalise(pc, goal)
+	}
+	if !goal.IsTrue() && !pc.IsFalse() {
+		goal = v.F.SimplifyUnder(pc, goal)
 		if !goal.IsTrue() && len(v.abstract) > 0 && v.F.Distribute {
 			// ring layer: split on the (uninterpreted) branch predicates so that each case is a polynomial identity
-			goal = v.F.caseSplitGoal(st.pc, goal)
+			goal = v.F.caseSplitGoal(pc, goal)
 		}
 	}
-	if goal.IsTrue() || st.pc.IsFalse() {
+	if goal.IsTrue() || pc.IsFalse() {
 		v.trivial++
 		return
 	}
@@ -930,7 +934,7 @@ func (fr *Frame) oblige(st *State, kind string, goal *Term, spec string) {
 		top = top.caller
 	}
 	o := &Obligation{Name: name, Kind: strings.SplitN(kind, ":", 2)[0], Func: top.fname, Part: top.part,
-		Hyps: append(append([]*Term(nil), v.initFacts...), st.pc), Goal: goal, Abstract: v.abstractProducts, Spec: spec, Preamble: v.preamble}
+		Hyps: append(append([]*Term(nil), v.initFacts...), pc), Goal: goal, Abstract: v.abstractProducts, Spec: spec, Preamble: v.preamble}
 	v.emit(o)
 }
 
@@ -1004,6 +1008,15 @@ func (fr *Frame) run(b, pred *ssa.BasicBlock, st *State, stop *ssa.BasicBlock) (
 				fr.havocLoop(st, b, body)
 				fr.bindIter(st, b, body, nil)
 				fr.applyAnnot(st, ann, "", false, true)
+				// "+ ghost-post g = e" on a loop: the value of e at the head of an arbitrary iteration (after the
+				// havoc and the assumption of the invariant), e.g. the accumulator before the iteration's work
+				if len(ann.GhostPost) > 0 {
+					se := &SpecEnv{fr: fr, st: st, old: fr.entry, vars: fr.params, pkg: fr.fn.Pkg, fn: fr.fn}
+					for _, g := range ann.GhostPost {
+						st.ghosts[g.Name] = se.evalTerm(g.E)
+					}
+				}
+				st.headPC = st.pc
 			}
 		}
 		if !phisDone {
